@@ -10,6 +10,9 @@ package tlb
 // (thorough) for size 5; values are Uint16. For every set, reference encodings with every edge forced to hml_short,
 // to hml_long, to hml_same where valid, the canonical (shortest) form and 3 (quick) / 20 (thorough) random mixtures.
 // Update-after-decode: every single-key insertion and one overwrite on every decoded set.
+// NewHashmapE / NewHashmap are given their keys in ascending key-bit order (a precondition of these constructors).
+// Informational only (C05-INFO lines, never a failure): how many key sets the library encodes with a label form other
+// than the shortest one the reference implementation would choose.
 //
 // Oracle: the reference dictionary parser / builder of verif_helper_test.go (written from the hm_edge / hml_* schema),
 // ideal key bits (big-endian two's complement), and plain Go maps.
@@ -46,20 +49,22 @@ func c05Perms(n int) [][]int {
 	return out
 }
 
-// c05Cause: stable root-cause names.
-func c05Cause(spec string, signed bool, mixedSigns bool, check string) string {
-	switch {
-	case spec == "AddressWithWorkchain" && (check == "marshal" || check == "library_encoding_invalid" || check == "library_encoding_mapping"):
-		return "rc_addresswithworkchain_key_has_no_marshaltlb"
-	case check == "not_canonical":
-		return "rc_library_labels_not_canonical"
-	case check == "newhashmap_unsorted":
-		return "rc_newhashmap_needs_presorted_keys"
-	case signed && mixedSigns:
+// c05Cause: stable root-cause names. A name is given only when the evidence for that root cause is present; every
+// other failure is reported as rc_unclassified/<key type>/<check> so that a new defect never hides under a known name.
+//   - rc_signed_keys_numeric_order_vs_bit_order: signed key type, the dictionary was built / updated through Put, the
+//     key slice Put left behind is NOT in ascending key-bit order, and the failing check is one that depends on that
+//     order (Marshal fails, or its output is not a valid dictionary / encodes another mapping / depends on the
+//     insertion order).
+func c05Cause(spec string, signed bool, putOrderBroken bool, check string) string {
+	orderChecks := map[string]bool{"marshal": true, "library_encoding_invalid": true, "library_encoding_mapping": true, "order_dependent_encoding": true, "decode_own": true}
+	if signed && putOrderBroken && orderChecks[check] {
 		return "rc_signed_keys_numeric_order_vs_bit_order"
 	}
 	return "rc_unclassified/" + spec + "/" + check
 }
+
+// c05Info: informational counters (never fail the test).
+var c05Info = map[string]int{}
 
 func c05Run[K fixedSize](t *testing.T, rng *rand.Rand, spec c05KeySpec[K], stat *vhStat, fails *vhFailures) {
 	thorough := vhThorough()
@@ -79,23 +84,27 @@ func c05Run[K fixedSize](t *testing.T, rng *rand.Rand, spec c05KeySpec[K], stat 
 		}
 		return fmt.Sprintf("%v(0x%s)", any(k), vhBin2Hex(spec.bits(k)))
 	}
+	showKeys := func(ks []K) string {
+		var parts []string
+		for _, k := range ks {
+			parts = append(parts, show(k))
+		}
+		return "[" + strings.Join(parts, " ") + "]"
+	}
+	ascending := func(ks []K) bool {
+		for i := 1; i < len(ks); i++ {
+			if spec.bits(ks[i-1]) >= spec.bits(ks[i]) {
+				return false
+			}
+		}
+		return true
+	}
 	describe := func(idx []int) string {
 		var parts []string
 		for _, i := range idx {
 			parts = append(parts, show(u[i]))
 		}
 		return "[" + strings.Join(parts, " ") + "]"
-	}
-	mixed := func(idx []int) bool {
-		neg, pos := false, false
-		for _, i := range idx {
-			if ubits[i][0] == '1' {
-				neg = true
-			} else {
-				pos = true
-			}
-		}
-		return neg && pos
 	}
 	// checkDecoded: the library's view of a decoded dictionary against the expected mapping (index -> value)
 	checkDecoded := func(h *HashmapE[K, Uint16], want map[int]Uint16, what string, fail func(check, msg string)) {
@@ -202,9 +211,9 @@ func c05Run[K fixedSize](t *testing.T, rng *rand.Rand, spec c05KeySpec[K], stat 
 			want[i] = valOf(i, 0)
 		}
 		setDesc := describe(idx)
-		isMixed := mixed(idx)
+		putOrderBroken := false // set after every Put sequence: are the keys Put left behind out of key-bit order?
 		fail := func(check, msg string) {
-			fails.add(c05Cause(spec.name, spec.signed, isMixed, check), "%s keys %s: %s: %s", spec.name, setDesc, check, msg)
+			fails.add(c05Cause(spec.name, spec.signed, putOrderBroken, check), "%s keys %s: %s: %s", spec.name, setDesc, check, msg)
 		}
 		canonical := refCell(want, vhCanonicalKind)
 		canonicalHash := vhHash(canonical)
@@ -225,13 +234,17 @@ func c05Run[K fixedSize](t *testing.T, rng *rand.Rand, spec c05KeySpec[K], stat 
 			var h HashmapE[K, Uint16]
 			c := boc.NewCell()
 			var err error
-			if pm := vhSafe(func() {
+			pm := vhSafe(func() {
 				for _, i := range order {
 					h.Put(u[i], want[i])
 				}
-				err = Marshal(c, h)
-			}); pm != "" || err != nil {
-				fail("marshal", fmt.Sprintf("%s: Put/Marshal failed: %v %v", what, pm, err))
+			})
+			putOrderBroken = !ascending(h.Keys())
+			if pm == "" {
+				pm = vhSafe(func() { err = Marshal(c, h) })
+			}
+			if pm != "" || err != nil {
+				fail("marshal", fmt.Sprintf("%s: Put/Marshal failed: %v %v (keys after Put: %s)", what, pm, err, showKeys(h.Keys())))
 				continue
 			}
 			got, _, err := parseE(c, spec.n)
@@ -246,8 +259,10 @@ func c05Run[K fixedSize](t *testing.T, rng *rand.Rand, spec c05KeySpec[K], stat 
 			hs := vhHash(c)
 			if firstHash == "" {
 				firstHash = hs
+				// informational only: C05 does not require the shortest label form
+				c05Info["sets_encoded"]++
 				if hs != canonicalHash {
-					fail("not_canonical", fmt.Sprintf("library cell %s, reference (shortest labels) %s", vhTree(c), vhTree(canonical)))
+					c05Info["sets_encoded_with_a_label_form_other_than_the_shortest"]++
 				}
 			} else if hs != firstHash {
 				fail("order_dependent_encoding", fmt.Sprintf("%s: hash %s differs from the first order's %s", what, hs, firstHash))
@@ -268,43 +283,47 @@ func c05Run[K fixedSize](t *testing.T, rng *rand.Rand, spec c05KeySpec[K], stat 
 				}
 			}
 		}
-		// NewHashmapE with keys listed in ascending key-bit order, and in a different order
+		// NewHashmapE: ascending key-bit order of the key slice is a precondition of NewHashmapE / NewHashmap
 		if len(idx) > 0 {
+			putOrderBroken = false
 			sorted := append([]int{}, idx...)
 			sort.Slice(sorted, func(a, b int) bool { return ubits[sorted[a]] < ubits[sorted[b]] })
-			// variant 1: the same pairs listed in another order (rotated by one: neither ascending nor descending)
-			for variant, order := range [][]int{sorted, append(append([]int{}, sorted[1:]...), sorted[0])} {
-				if variant == 1 && len(idx) < 3 {
-					continue
-				}
-				var ks []K
-				var vs []Uint16
-				for _, i := range order {
-					ks = append(ks, u[i])
-					vs = append(vs, want[i])
-				}
-				stat.add(fmt.Sprintf("%s|new|%v", spec.name, order))
-				check := "newhashmap_sorted"
-				if variant == 1 {
-					check = "newhashmap_unsorted"
-				}
-				c := boc.NewCell()
-				var err error
-				if pm := vhSafe(func() { err = Marshal(c, NewHashmapE(ks, vs)) }); pm != "" || err != nil {
-					if spec.name == "AddressWithWorkchain" {
-						check = "marshal"
+			var ks []K
+			var vs []Uint16
+			for _, i := range sorted {
+				ks = append(ks, u[i])
+				vs = append(vs, want[i])
+			}
+			stat.add(fmt.Sprintf("%s|new|%v", spec.name, sorted))
+			c := boc.NewCell()
+			var err error
+			if pm := vhSafe(func() { err = Marshal(c, NewHashmapE(ks, vs)) }); pm != "" || err != nil {
+				fail("newhashmap_sorted", fmt.Sprintf("NewHashmapE(%s): Marshal failed: %v %v", describe(sorted), pm, err))
+			} else if got, _, err := parseE(c, spec.n); err != nil {
+				fail("newhashmap_sorted", fmt.Sprintf("NewHashmapE(%s): invalid dictionary: %v; cell %s", describe(sorted), err, vhTree(c)))
+			} else if d := sameMapping(got, want); d != "" {
+				fail("newhashmap_sorted", fmt.Sprintf("NewHashmapE(%s): wrong mapping: %s", describe(sorted), d))
+			} else if firstHash != "" && vhHash(c) != firstHash {
+				fail("newhashmap_sorted", fmt.Sprintf("NewHashmapE(%s): hash differs from the dictionary built with Put", describe(sorted)))
+			}
+			// plain Hashmap (not E) with the same pairs
+			c2 := boc.NewCell()
+			if pm := vhSafe(func() { err = Marshal(c2, NewHashmap(ks, vs)) }); pm != "" || err != nil {
+				fail("newhashmap_plain", fmt.Sprintf("NewHashmap(%s): Marshal failed: %v %v", describe(sorted), pm, err))
+			} else if leaves, _, err := vhDictParseCell(c2, spec.n); err != nil || len(leaves) != len(want) {
+				fail("newhashmap_plain", fmt.Sprintf("NewHashmap(%s): not a valid Hashmap: %v; cell %s", describe(sorted), err, vhTree(c2)))
+			} else {
+				var back Hashmap[K, Uint16]
+				c2.ResetCounters()
+				if pm := vhSafe(func() { err = Unmarshal(c2, &back) }); pm != "" || err != nil || len(back.Keys()) != len(sorted) {
+					fail("newhashmap_plain", fmt.Sprintf("NewHashmap(%s): does not decode back: %v %v", describe(sorted), pm, err))
+				} else {
+					for p, i := range sorted {
+						if spec.bits(back.Keys()[p]) != ubits[i] || back.Values()[p] != want[i] {
+							fail("newhashmap_plain", fmt.Sprintf("NewHashmap(%s): position %d decodes to %s", describe(sorted), p, show(back.Keys()[p])))
+							break
+						}
 					}
-					fail(check, fmt.Sprintf("NewHashmapE(%s): Marshal failed: %v %v", describe(order), pm, err))
-					continue
-				}
-				got, _, err := parseE(c, spec.n)
-				if err != nil {
-					if spec.name == "AddressWithWorkchain" {
-						check = "library_encoding_invalid"
-					}
-					fail(check, fmt.Sprintf("NewHashmapE(%s): invalid dictionary: %v; cell %s", describe(order), err, vhTree(c)))
-				} else if d := sameMapping(got, want); d != "" {
-					fail(check, fmt.Sprintf("NewHashmapE(%s): wrong mapping: %s", describe(order), d))
 				}
 			}
 		}
@@ -329,6 +348,7 @@ func c05Run[K fixedSize](t *testing.T, rng *rand.Rand, spec c05KeySpec[K], stat 
 				return func(string, int) string { return []string{"short", "long", "same"}[r.Intn(3)] }
 			}()})
 		}
+		putOrderBroken = false // nothing below in this block was built through Put
 		for _, f := range forms {
 			c := refCell(want, f.choose)
 			stat.add(fmt.Sprintf("%s|decode|%v|%s", spec.name, idx, vhHash(c)))
@@ -357,13 +377,9 @@ func c05Run[K fixedSize](t *testing.T, rng *rand.Rand, spec c05KeySpec[K], stat 
 				want2[k] = v
 			}
 			want2[i] = valOf(i, 7)
-			var idx2 []int
-			for k := range want2 {
-				idx2 = append(idx2, k)
-			}
-			mixed2 := mixed(idx2)
+			broken2 := false
 			fail2 := func(check, msg string) {
-				fails.add(c05Cause(spec.name, spec.signed, mixed2, check), "%s keys %s then Put(%s): %s: %s", spec.name, setDesc, show(u[i]), check, msg)
+				fails.add(c05Cause(spec.name, spec.signed, broken2, check), "%s keys %s then Put(%s): %s: %s", spec.name, setDesc, show(u[i]), check, msg)
 			}
 			var h HashmapE[K, Uint16]
 			var err error
@@ -373,11 +389,13 @@ func c05Run[K fixedSize](t *testing.T, rng *rand.Rand, spec c05KeySpec[K], stat 
 				continue
 			}
 			c := boc.NewCell()
-			if pm := vhSafe(func() {
-				h.Put(u[i], want2[i])
-				err = Marshal(c, h)
-			}); pm != "" || err != nil {
-				fail2("marshal", fmt.Sprintf("Put/Marshal after decode failed: %v %v", pm, err))
+			pm := vhSafe(func() { h.Put(u[i], want2[i]) })
+			broken2 = !ascending(h.Keys())
+			if pm == "" {
+				pm = vhSafe(func() { err = Marshal(c, h) })
+			}
+			if pm != "" || err != nil {
+				fail2("marshal", fmt.Sprintf("Put/Marshal after decode failed: %v %v (keys after Put: %s)", pm, err, showKeys(h.Keys())))
 				continue
 			}
 			got, _, err := parseE(c, spec.n)
@@ -403,8 +421,7 @@ func c05Run[K fixedSize](t *testing.T, rng *rand.Rand, spec c05KeySpec[K], stat 
 func TestVerifStandin_C05_Hashmap(t *testing.T) {
 	rng := vhRng()
 	stat := newVhStat("c05_hashmap")
-	fails := newVhFailures("rc_signed_keys_numeric_order_vs_bit_order", "rc_library_labels_not_canonical",
-		"rc_addresswithworkchain_key_has_no_marshaltlb", "rc_newhashmap_needs_presorted_keys")
+	fails := newVhFailures("rc_signed_keys_numeric_order_vs_bit_order", "rc_addresswithworkchain_decode_truncates_int32_workchain_to_int8")
 
 	c05Run(t, rng, c05KeySpec[Uint8]{name: "Uint8", n: 8, universe: []Uint8{0x00, 0xFF, 0x01, 0x80, 0x7F, 0xFE},
 		bits: func(k Uint8) string { return vhU64Bits(uint64(k), 8) }}, stat, fails)
@@ -436,8 +453,48 @@ func TestVerifStandin_C05_Hashmap(t *testing.T) {
 	// suspended_address_list: (HashmapE 288 Unit) keyed by workchain:int32 address:bits256
 	c05Run(t, rng, c05KeySpec[AddressWithWorkchain]{name: "AddressWithWorkchain", n: 288,
 		universe: []AddressWithWorkchain{{0, zero}, {-1, ones}, {0, zero1}, {127, p00ff}, {-128, pff00}, {-1, zero}},
-		bits: func(k AddressWithWorkchain) string { return vhI64Bits(int64(k.Workchain), 32) + vhBytesBits(k.Address[:]) }}, stat, fails)
+		bits: func(k AddressWithWorkchain) string {
+			return vhI64Bits(int64(k.Workchain), 32) + vhBytesBits(k.Address[:])
+		}}, stat, fails)
 
+	// A valid (HashmapE 288 X) whose keys carry a workchain outside int8 (the wire field is int32): the decoder must
+	// either keep the keys apart or report an error; silently folding 256 onto 0 loses the mapping.
+	{
+		var a Bits256
+		rng.Read(a[:])
+		k0 := vhI64Bits(0, 32) + vhBytesBits(a[:])
+		k256 := vhI64Bits(256, 32) + vhBytesBits(a[:])
+		root, err := vhDictBuild([]vhDictLeaf{{Key: k0, ValBits: vhU64Bits(1, 16)}, {Key: k256, ValBits: vhU64Bits(2, 16)}}, 288, vhCanonicalKind)
+		if err != nil {
+			t.Fatal(err)
+		}
+		cell, _ := vhCellFromBits("1", root)
+		stat.add("AddressWithWorkchain|wide_workchain")
+		var h HashmapE[AddressWithWorkchain, Uint16]
+		var derr error
+		if pm := vhSafe(func() { derr = Unmarshal(cell, &h) }); pm != "" {
+			fails.add("rc_unclassified/AddressWithWorkchain/wide_workchain_panic", "cell %s: %s", vhTree(cell), pm)
+		} else if derr == nil {
+			ks := h.Keys()
+			if len(ks) == 2 && ks[0].Equal(ks[1]) {
+				v, _ := h.Get(ks[0])
+				fails.add("rc_addresswithworkchain_decode_truncates_int32_workchain_to_int8",
+					"dictionary with keys (workchain 0, addr %x) -> 1 and (workchain 256, addr %x) -> 2 decodes without error to two equal keys {%d %x}; Get returns %d; cell %s",
+					a[:], a[:], ks[0].Workchain, ks[0].Address[:], v, vhTree(cell))
+			} else if len(ks) != 2 {
+				fails.add("rc_unclassified/AddressWithWorkchain/wide_workchain", "decoded %d keys from %s", len(ks), vhTree(cell))
+			}
+		}
+	}
+
+	var infoKeys []string
+	for k := range c05Info {
+		infoKeys = append(infoKeys, k)
+	}
+	sort.Strings(infoKeys)
+	for _, k := range infoKeys {
+		fmt.Printf("C05-INFO %s=%d\n", k, c05Info[k])
+	}
 	fails.report(t)
 	stat.print()
 }
